@@ -91,7 +91,9 @@ def extra_absent(labels):
     out = []
     for label in labels[:2]:
         if isinstance(label, (int, np.integer)) and not isinstance(label, bool):
-            out += [int(label) + 0.5, np.float64(int(label) + 0.25), str(label), -(abs(int(label)) + 0.5)]
+            lo, hi = min(int(x) for x in labels if isinstance(x, (int, np.integer)) and not isinstance(x, bool)), max(int(x) for x in labels if isinstance(x, (int, np.integer)) and not isinstance(x, bool))
+            out += [int(label) + 0.5, np.float64(int(label) + 0.25), str(label), -(abs(int(label)) + 0.5),
+                    np.int64(lo - 1), np.int32(lo - 5), np.int64(hi + 1), np.int16(lo - len(labels))]   # NumPy integers just outside the span
         elif isinstance(label, str):
             out += [label + ' ', label.upper() if label.upper() != label else label.lower()]
     return [x for x in out if not any(_eq(x, l) for l in labels)]
